@@ -84,68 +84,97 @@ fn a(s: &str) -> Alias {
     Alias::new(s)
 }
 
+/// The inline rendering of a select through one of its equivalent entry points.
+trait InlineRouted {
+    fn inline_routed(&self, d: Dialect) -> String;
+}
+macro_rules! inline_routed {
+    ($t:ty) => {
+        impl InlineRouted for $t {
+            fn inline_routed(&self, d: Dialect) -> String {
+                let mut out = String::new();
+                match (crate::apply::route(3), d) {
+                    (0, _) => self.build_collect_any(qb(d), &mut out),
+                    (1, Dialect::Mysql) => self.to_string(MysqlQueryBuilder),
+                    (1, Dialect::Postgres) => self.to_string(PostgresQueryBuilder),
+                    (1, Dialect::Sqlite) => self.to_string(SqliteQueryBuilder),
+                    (_, Dialect::Mysql) => self.build_collect(MysqlQueryBuilder, &mut out),
+                    (_, Dialect::Postgres) => self.build_collect(PostgresQueryBuilder, &mut out),
+                    (_, Dialect::Sqlite) => self.build_collect(SqliteQueryBuilder, &mut out),
+                }
+            }
+        }
+    };
+}
+inline_routed!(SelectStatement);
+inline_routed!(InsertStatement);
+inline_routed!(UpdateStatement);
+
+/// A schema statement through one of its equivalent entry points.
+trait SchemaRouted {
+    fn schema_routed(&self, d: Dialect) -> String;
+}
+impl<T: SchemaStatementBuilder> SchemaRouted for T {
+    fn schema_routed(&self, d: Dialect) -> String {
+        crate::ddl::render_schema(self, d)
+    }
+}
+
 /// Render value `v` at position `p` for backend `d`. None = position does not exist for the backend.
 fn render_text(p: Pos, d: Dialect, v: &str) -> Option<String> {
     let q = qb(d);
-    let s = sb(d);
     Some(match p {
         Pos::Val => {
-            let mut out = String::new();
-            Query::select().expr(Expr::val(v)).build_collect_any(q, &mut out)
+            Query::select().expr(Expr::val(v)).inline_routed(d)
         }
         Pos::Constant => {
-            let mut out = String::new();
             Query::select()
                 .expr(SimpleExpr::Constant(v.into()))
-                .build_collect_any(q, &mut out)
+                .inline_routed(d)
         }
         Pos::ConstantInBuild => Query::select().expr(SimpleExpr::Constant(v.into())).build_any(q).0,
         Pos::FieldOrder => {
-            let mut out = String::new();
             Query::select()
                 .column(a("c"))
                 .from(a("t"))
                 .order_by(a("c"), Order::Field(Values(vec![v.into(), "second".into()])))
-                .build_collect_any(q, &mut out)
+                .limit(7)
+                .inline_routed(d)
         }
         Pos::LikePattern => {
-            let mut out = String::new();
             Query::select()
                 .column(a("c"))
                 .from(a("t"))
                 .and_where(Expr::col(a("c")).like(v))
-                .build_collect_any(q, &mut out)
+                .inline_routed(d)
         }
         Pos::LikePatternEscaped => {
-            let mut out = String::new();
             Query::select()
                 .column(a("c"))
                 .from(a("t"))
                 .and_where(Expr::col(a("c")).like(LikeExpr::new(v).escape('!')))
-                .build_collect_any(q, &mut out)
+                .inline_routed(d)
         }
         Pos::Json => {
-            let mut out = String::new();
             Query::select()
                 .expr(Expr::val(serde_json::json!({ "k": v })))
-                .build_collect_any(q, &mut out)
+                .inline_routed(d)
         }
         Pos::PgArray => {
             if d != Dialect::Postgres {
                 return None;
             }
-            let mut out = String::new();
             Query::select()
                 .expr(Expr::val(Value::Array(
                     ArrayType::String,
                     Some(Box::new(vec![v.into(), "second".into()])),
                 )))
-                .build_collect_any(q, &mut out)
+                .inline_routed(d)
         }
         Pos::Default => Table::create()
             .table(a("t"))
             .col(ColumnDef::new(a("c")).text().default(v))
-            .build_any(s),
+            .schema_routed(d),
         Pos::PgArrayDefault => {
             if d != Dialect::Postgres {
                 return None;
@@ -153,28 +182,28 @@ fn render_text(p: Pos, d: Dialect, v: &str) -> Option<String> {
             Table::create()
                 .table(a("t"))
                 .col(ColumnDef::new(a("c")).array(ColumnType::Text).default(Value::Array(ArrayType::String, Some(Box::new(vec![v.into(), "second".into()])))))
-                .build_any(s)
+                .schema_routed(d)
         }
-        Pos::AlterAddDefault => Table::alter().table(a("t")).add_column(ColumnDef::new(a("c")).text().default(v)).build_any(s),
+        Pos::AlterAddDefault => Table::alter().table(a("t")).add_column(ColumnDef::new(a("c")).text().default(v)).schema_routed(d),
         Pos::AlterModifyDefault => {
             if d == Dialect::Sqlite {
                 return None;
             }
-            Table::alter().table(a("t")).modify_column(ColumnDef::new(a("c")).text().default(v)).build_any(s)
+            Table::alter().table(a("t")).modify_column(ColumnDef::new(a("c")).text().default(v)).schema_routed(d)
         }
         Pos::MysqlAlterColComment => {
             if d != Dialect::Mysql {
                 return None;
             }
-            Table::alter().table(a("t")).add_column(ColumnDef::new(a("c")).text().comment(v)).build_any(s)
+            Table::alter().table(a("t")).add_column(ColumnDef::new(a("c")).text().comment(v)).schema_routed(d)
         }
         Pos::IndexFilterLiteral => {
             if d == Dialect::Mysql {
                 return None;
             }
-            Index::create().name("ix").table(a("t")).col(a("c")).and_where(Expr::col(a("c")).ne(v)).build_any(s)
+            Index::create().name("ix").table(a("t")).col(a("c")).and_where(Expr::col(a("c")).ne(v)).schema_routed(d)
         }
-        Pos::CheckLiteral => Table::create().table(a("t")).col(ColumnDef::new(a("c")).text()).check(Expr::col(a("c")).ne(v)).build_any(s),
+        Pos::CheckLiteral => Table::create().table(a("t")).col(ColumnDef::new(a("c")).text()).check(Expr::col(a("c")).ne(v)).schema_routed(d),
         Pos::MysqlColComment => {
             if d != Dialect::Mysql {
                 return None;
@@ -182,7 +211,7 @@ fn render_text(p: Pos, d: Dialect, v: &str) -> Option<String> {
             Table::create()
                 .table(a("t"))
                 .col(ColumnDef::new(a("c")).text().comment(v))
-                .build_any(s)
+                .schema_routed(d)
         }
         Pos::MysqlTableComment => {
             if d != Dialect::Mysql {
@@ -192,7 +221,7 @@ fn render_text(p: Pos, d: Dialect, v: &str) -> Option<String> {
                 .table(a("t"))
                 .comment(v)
                 .col(ColumnDef::new(a("c")).text())
-                .build_any(s)
+                .schema_routed(d)
         }
         Pos::MysqlEnumLabel => {
             if d != Dialect::Mysql {
@@ -201,7 +230,7 @@ fn render_text(p: Pos, d: Dialect, v: &str) -> Option<String> {
             Table::create()
                 .table(a("t"))
                 .col(ColumnDef::new(a("c")).enumeration(a("e"), [a(v), a("second")]))
-                .build_any(s)
+                .schema_routed(d)
         }
         Pos::PgCreateEnum => {
             if d != Dialect::Postgres {
@@ -245,20 +274,18 @@ fn render_text(p: Pos, d: Dialect, v: &str) -> Option<String> {
             inject_parameters(tpl, vec![Value::from(v)], q)
         }
         Pos::InsertValue => {
-            let mut out = String::new();
             Query::insert()
                 .into_table(a("t"))
                 .columns([a("c"), a("d")])
                 .values_panic([v.into(), 1.into()])
-                .build_collect_any(q, &mut out)
+                .inline_routed(d)
         }
         Pos::UpdateValue => {
-            let mut out = String::new();
             Query::update()
                 .table(a("t"))
                 .value(a("c"), v)
                 .and_where(Expr::col(a("d")).eq(v))
-                .build_collect_any(q, &mut out)
+                .inline_routed(d)
         }
     })
 }
@@ -558,16 +585,16 @@ fn check_text(
 // ---- chars -----------------------------------------------------------------
 
 fn render_char(d: Dialect, c: char, as_escape: bool) -> String {
-    let q = qb(d);
-    let mut out = String::new();
     if as_escape {
+        // (a bound value follows the inlined escape character)
         Query::select()
             .column(a("c"))
             .from(a("t"))
             .and_where(Expr::col(a("c")).like(LikeExpr::new("pat").escape(c)))
-            .build_collect_any(q, &mut out)
+            .and_where(Expr::col(a("c")).ne("it's"))
+            .inline_routed(d)
     } else {
-        Query::select().expr(Expr::val(c)).build_collect_any(q, &mut out)
+        Query::select().expr(Expr::val(c)).inline_routed(d)
     }
 }
 
@@ -595,8 +622,13 @@ fn check_char(ctx: &Ctx, rep: &mut Report, db: &Db, n: u64, d: Dialect, c: char,
     let want_prefix = if as_escape { 9 } else { 1 };
     let ok = match lex(d, &sql) {
         Ok(toks) => {
-            toks.len() == want_prefix + 1
-                && matches!(&toks[want_prefix].tok, Tok::Str(s) if s.chars().eq(std::iter::once(c)))
+            // (the escape character is followed by `AND c <> 'it''s'`, whose value must stay what it is)
+            let tail_ok = if as_escape {
+                toks.len() == want_prefix + 5 && matches!(&toks[want_prefix + 4].tok, Tok::Str(s) if s == "it's") && toks[want_prefix + 1].tok.is_word("AND")
+            } else {
+                toks.len() == want_prefix + 1
+            };
+            tail_ok && matches!(&toks[want_prefix].tok, Tok::Str(s) if s.chars().eq(std::iter::once(c)))
         }
         Err(_) => false,
     };
@@ -633,9 +665,8 @@ fn check_char(ctx: &Ctx, rep: &mut Report, db: &Db, n: u64, d: Dialect, c: char,
 
 fn render_bytes(d: Dialect, b: &[u8], which: u8) -> String {
     let q = qb(d);
-    let mut out = String::new();
     match which {
-        0 => Query::select().expr(Expr::val(b.to_vec())).build_collect_any(q, &mut out),
+        0 => Query::select().expr(Expr::val(b.to_vec())).inline_routed(d),
         1 => Query::select()
             .expr(SimpleExpr::Constant(Value::Bytes(Some(Box::new(b.to_vec())))))
             .build_any(q)
@@ -751,7 +782,19 @@ pub fn check(ctx: &Ctx, rep: &mut Report) {
         }
         crate::apply::set_route_seed(ctx.seed ^ n.wrapping_mul(0x9E3779B97F4A7C15));
         let mut rng = ctx.rng("rand", k);
-        let v = rng.string_from(&ALPHA, 64, true);
+        let mut v = rng.string_from(&ALPHA, 64, true);
+        if rng.chance(1, 150) {
+            // long values around the sizes engines document as limits (comments, labels, names): a plain
+            // filler with the random value in front, in the middle or at the very end
+            let len = *rng.pick(&[255usize, 256, 1023, 1024, 2047, 2048, 4096, 65_535, 70_000]);
+            let filler: String = std::iter::repeat(*rng.pick(&['x', 'é', ' '])).take(len.saturating_sub(v.chars().count())).collect();
+            v = match rng.below(3) {
+                0 => format!("{v}{filler}"),
+                1 => format!("{}{v}{}", &filler[..filler.len() / 2 - filler.len() / 2 % 2], &filler[filler.len() / 2 - filler.len() / 2 % 2..]),
+                _ => format!("{filler}{v}"),
+            };
+            rep.count("long_values", 1);
+        }
         let p = *rng.pick(&TEXT_POSITIONS);
         for d in Dialect::ALL {
             check_text(ctx, rep, &mut tpl, &db, n, p, d, &v, k % 5000 == 1);
